@@ -455,6 +455,7 @@ func concKinds() []concKind {
 		return concPlan{ops: mk(), want: wants(mk())}
 	}})
 	ks = append(ks, eccKinds()...)
+	ks = append(ks, sharedKinds()...)
 	return ks
 }
 
